@@ -27,6 +27,7 @@ REQUIRED = {
     "mon:events.exactly-once-in-worker-order": 500,
     "mon:stream.route-code-and-timestamp": 200,
     "mon:cts.one-test-at-a-time": 200,
+    "mon:events.times-and-details-as-emitted": 100,
     "mon:broken-runner.reported": 50,
     "mon:abort.exception-propagates": 100,
     "mon:abort.started-workers-told-to-stop": 100,
@@ -85,6 +86,19 @@ class Worker:
                 result.status(test_id="w%d.t%d" % (self.i, j), test_status="success", test_tags=None,
                               runnable=True, file_name=None, file_bytes=None, eof=False, mime_type=None,
                               route_code=None, timestamp=None)
+            elif self.spec.get("stamped"):
+                # recorded results replayed: the test carries its own start and end time (the end may lie BEFORE the
+                # start - "time is permitted to go backwards") and, when it errs, a text detail that arrives in
+                # several chunks with a multi-byte character across a chunk boundary
+                t0, t1 = stamps(self.i, j)
+                outcome = ["addSuccess", "addError", "addSkip"][(self.i + j) % 3]
+                details = None
+                if outcome == "addError":
+                    from testtools.content import Content
+                    from testtools.content_type import UTF8_TEXT
+                    details = {"log": Content(UTF8_TEXT, lambda: list(SPLIT_LOG))}
+                testtools.PlaceHolder("w%d.t%d" % (self.i, j), outcome=outcome, details=details,
+                                      timestamps=(t0, t1)).run(result)
             elif self.spec.get("tag_churn"):
                 # a test that tags itself, reports, and then changes its tags again before it is stopped (a fixture
                 # cleaning up): the event it emitted for its outcome carries the tags current THEN
@@ -127,6 +141,15 @@ class Worker:
 
     def __hash__(self):
         return id(self)
+
+
+STAMP_BASE = datetime.datetime(2001, 2, 3, 4, 5, 6, tzinfo=datetime.timezone.utc)
+SPLIT_LOG = [b"caf\xc3", b"\xa9 \xe2\x98", b"\x83 end\n"]      # 'café ☃ end' cut inside both characters
+
+
+def stamps(i, j):
+    t0 = STAMP_BASE + datetime.timedelta(seconds=i * 100 + j * 10)
+    return t0, t0 + datetime.timedelta(milliseconds=[1000, 0, -1000, -250][(i + j) % 4])
 
 
 def make_case_worker(i, spec, runlog, sch, kind):
@@ -443,6 +466,22 @@ def check(ctx, case, sch, log, runlog, created, exc, yielded, shim, target, deta
                 ok = mine == want
             ctx.check(ok, "events.exactly-once-in-worker-order",
                       lambda: {"worker": i, "got": mine, "want": want, **detail()})
+        for i, spec in enumerate(specs):
+            if not spec.get("stamped") or case.get("cts_fault"):
+                continue
+            got, want = [], []
+            evs = log.events
+            for k, e in enumerate(evs):
+                if e.test and str(e.test).startswith("w%d." % i) and (e.name == "startTest" or e.name in recorders.OUTCOMES):
+                    prev = evs[k - 1] if k else None
+                    got.append((e.test, e.name == "startTest", prev.payload["time"] if prev is not None and prev.name == "time" else "no time() before it"))
+                    want.append((e.test, e.name == "startTest", stamps(i, int(e.test.split(".t")[1]))[0 if e.name == "startTest" else 1]))
+                    if e.name == "addError":
+                        log_bytes = ((e.payload or {}).get("details") or {}).get("log")
+                        got.append(log_bytes and log_bytes[1])
+                        want.append(b"".join(SPLIT_LOG))
+            ctx.check(got == want, "events.times-and-details-as-emitted",
+                      lambda: {"worker": i, "reached the caller's result": got, "emitted": want, **detail()})
         if case.get("cts_fault"):
             # a worker whose reporting blew up is reported as a broken runner, and the result still
             # sees one test at a time (checked above)
@@ -496,6 +535,24 @@ def check(ctx, case, sch, log, runlog, created, exc, yielded, shim, target, deta
                 want = want[:-2]  # broken runners share one id under a shared route code: counted below
             ctx.check(mine == want, "events.exactly-once-in-worker-order",
                       lambda: {"worker": i, "got": mine, "want": want, **detail()})
+            if spec.get("stamped"):
+                got, want = [], []
+                for p in ev:
+                    if p["route_code"] != code_i or not (p["test_id"] or "").startswith("w%d." % i):
+                        continue
+                    jj = int(p["test_id"].split(".t")[1])
+                    t0, t1 = stamps(i, jj)
+                    if spec.get("direct") and jj % 2:
+                        continue        # (raw events without a time of their own)
+                    if p["test_status"] is not None:
+                        got.append((p["test_id"], p["test_status"], p["timestamp"]))
+                        want.append((p["test_id"], p["test_status"], t0 if p["test_status"] == "inprogress" else t1))
+                for tid in sorted({p["test_id"] for p in ev if p["route_code"] == code_i and p["file_name"] == "log"}):
+                    got.append((tid, b"".join(p["file_bytes"] for p in ev if p["route_code"] == code_i
+                                              and p["test_id"] == tid and p["file_name"] == "log")))
+                    want.append((tid, b"".join(SPLIT_LOG)))
+                ctx.check(got == want, "events.times-and-details-as-emitted",
+                          lambda: {"worker": i, "reached the caller's result": got, "emitted": want, **detail()})
             if spec.get("tag_churn"):
                 finals = [(p["test_id"], sorted(p["test_tags"] or ())) for p in ev
                           if p["route_code"] == code_i and p["test_id"].startswith("w%d." % i)
@@ -652,6 +709,8 @@ def run(ctx):
             w = {"tests": rng.randint(0, 3)}
             if kind == "stream" and rng.random() < 0.25:
                 w["tag_churn"] = True
+            elif rng.random() < 0.25:
+                w["stamped"] = True
             if rng.random() < 0.2:
                 w["raise_at"] = rng.randint(0, w["tests"])
                 if rng.random() < 0.4:
